@@ -287,7 +287,13 @@ func (g *Gen) Snapshot(s *State, v Value, mod, tn string) *SVal {
 			return &SVal{K: 'n'}
 		}
 		o := s.heap[x.Obj]
-		r := g.Snapshot(s, navigate(o.Val, x.Path), mod, tn)
+		var at Value
+		if o.Kind == kElems && len(x.Path) > 0 && x.Path[0].Idx != nil && x.Path[0].Idx.IsConst() {
+			at = navigate(o.E[int(x.Path[0].Idx.Val)], x.Path[1:]) // pointer to an element of a slice's backing array
+		} else {
+			at = navigate(o.Val, x.Path)
+		}
+		r := g.Snapshot(s, at, mod, tn)
 		r.Obj = x.Obj
 		return r
 	case *IfaceV:
